@@ -44,6 +44,12 @@ INTERVAL = 4
 
 def configs(tier):
     out = []
+    # the destination's handler holds the CPU for longer than the interval during one delivery:
+    # the pace afterwards is still one re-send per interval (no burst catching up)
+    for count in (None, 6):
+        for at in (0, 1, 2):
+            for hold in (0.5, 1, 2.5, 3):
+                out.append(dict(kind='stall', count=count, at=at, hold=hold))
     counts = [None, 0, 1, 3]
     gaps = [0, 1, 3, 4, 5, 7, 8, 9]
     maxn = 3 if tier == 'quick' else 4
@@ -365,8 +371,61 @@ def judge(cfg, obs):
     return [(f"{k}:{v}" if ':' not in k else k, m) for k, m in errs]
 
 
+def run_stall(cfg, acc):
+    log = []
+    viol = []
+    with Sim() as sim:
+        loop = sim.loop
+        hold_us = int(cfg['hold'] * INTERVAL * TICK)
+
+        seen = [0]
+
+        def extra():
+            # called inside the destination's handler (deliveries are numbered like the repeats)
+            if seen[0] == cfg['at']:
+                loop.advance_us(hold_us)
+            seen[0] += 1
+            return None
+        probe = Probe('probe', log=log, extra=extra)
+        rpt = edzed.Repeat('rpt', dest=probe, etype='ev', interval=INTERVAL, count=cfg['count'])
+
+        async def driver():
+            task = asyncio.create_task(sim.circuit.run_forever())
+            await sim.circuit.wait_init()
+            edzed.ExtEvent(rpt, 'ev').send(tag='x')
+            await loop.sleep_until_us(int((cfg['hold'] + 8) * INTERVAL * TICK))
+            sim.circuit.abort(asyncio.CancelledError('stop'))
+            try:
+                await task
+            except BaseException:   # pylint: disable=broad-except
+                pass
+        sim.run(driver())
+    acc.execs += 1
+    recs = [(t, d.get('repeat')) for (t, _n, _e, d, _x) in log]
+    acc.outcome(('stall', cfg['count'], cfg['at'], cfg['hold'], tuple(recs)))
+    acc.state(('stall', cfg['count'], cfg['at']))
+    nums = [r for _t, r in recs]
+    exp_n = len(nums)
+    if nums != list(range(exp_n)) or exp_n < 4:
+        viol.append(('repeat-numbering:stall', f"{cfg}: deliveries {recs}"))
+    if cfg['count'] is not None and exp_n != cfg['count'] + 1:
+        viol.append(('wrong-count:stall', f"{cfg}: {exp_n - 1} repetitions, expected {cfg['count']}: {recs}"))
+    for (t1, r1), (t2, r2) in zip(recs, recs[1:]):
+        gap = (t2 - t1) / TICK
+        if gap < INTERVAL:
+            viol.append(('resend-too-early:stall',
+                         f"{cfg}: repetition {r2} came {gap} s after repetition {r1} (interval {INTERVAL} s; the "
+                         f"handler of repetition {cfg['at']} held the CPU for {cfg['hold'] * INTERVAL} s): {recs}"))
+            break
+    return viol
+
+
 def run_config(cfg):
     acc = Acc()
+    if cfg.get('kind') == 'stall':
+        for sig, msg in run_stall(cfg, acc):
+            acc.violation(f"C18:{sig}", msg, cfg=cfg)
+        return acc
     ex = explore(lambda ch: one_exec(cfg, ch))
     for ch, obs in ex:
         acc.execs += 1
